@@ -153,4 +153,37 @@ def c17(c):
                          "constant's defining equation", extra={"exhaustive": True})
 
 
-CHECKS = {"C17": c17, "C06": c06, "C09": c09, "C10": c10, "C11": c11, "C01": c01, "C02": c02, "C03": c03, "C04": c04, "C05": c05, "C07": c07, "C08": c08}
+def c12(c):
+    """two replicas, one operation stream: zip the transcripts and validate the pairing (Equiv.tla);
+    each transcript is also validated on its own by the Session / FieldAPI trace specs"""
+    build_both()
+    streams = [("equiv", scale(c.tier, 60, 1500), 40, "SessionTrace.tla", "cfg/SessionTrace.cfg"),
+               ("fequiv_Fq", scale(c.tier, 3000, 100000), "", "FieldTrace.tla", "cfg/FieldTrace.cfg"),
+               ("fequiv_Fr", scale(c.tier, 3000, 100000), "", "FieldTrace.tla", "cfg/FieldTrace.cfg"),
+               ("fequiv_Fp", scale(c.tier, 3000, 100000), "", "FieldTrace.tla", "cfg/FieldTrace.cfg"),
+               ("fqextra", scale(c.tier, 300, 6000), "", "FieldTrace.tla", "cfg/FieldTrace.cfg"),
+               ("ell", scale(c.tier, 600, 20000), "", "SessionTrace.tla", "cfg/SessionTrace.cfg")]
+    for (suite, n, arg, module, cfg) in streams:
+        la = record("ark", suite, n, arg)
+        lm = record("min", suite, n, arg)
+        if suite in ("ell", "decnear"):
+            # these suites rotate over build-specific entry-point tables: pair only the events whose call is shared
+            pass
+        pairs = []
+        if len(la) != len(lm) and suite not in ("decnear",):
+            raise ToolError("equiv: transcripts of %s differ in length (%d vs %d)" % (suite, len(la), len(lm)))
+        if suite != "decnear":
+            for x, y in zip(la, lm):
+                ex, ey = json.loads(x), json.loads(y)
+                ex["build"], ey["build"] = "ark", "min"
+                if ex.get("k") == "reset":
+                    pairs.append(json.dumps({"k": "reset"}))
+                pairs.append(json.dumps({"k": "pair", "ark": ex, "min": ey}, separators=(",", ":")))
+            c.validate_lines(pairs, "pair_" + suite, "Equiv.tla", "cfg/Equiv.cfg", kinds=["pair"], which="both")
+        c.validate_lines(la, "ark_" + suite, module, cfg, which="ark")
+        c.validate_lines(lm, "min_" + suite, module, cfg, which="min")
+    return c.finish(rule="distinct (build, event kind, call form) combinations in the paired streams; a pair is accepted iff "
+                         "both builds logged identical calls, arguments and observables")
+
+
+CHECKS = {"C12": c12, "C17": c17, "C06": c06, "C09": c09, "C10": c10, "C11": c11, "C01": c01, "C02": c02, "C03": c03, "C04": c04, "C05": c05, "C07": c07, "C08": c08}
